@@ -111,6 +111,19 @@ def _is_substitutable(newclass, cls):
     return issubclass(newclass, cls)
 
 
+def cleanup_namespaces(elt):
+    """etree.cleanup_namespaces() that knows that the prefix in an xsi:type value
+    is a use of its namespace declaration as well."""
+
+    keep = set()
+    for e in elt.iter():
+        xsi_type = e.get(XSI_TYPE) if isinstance(e.tag, string_types) else None
+        if xsi_type is not None and ':' in xsi_type:
+            keep.add(xsi_type.partition(':')[0])
+
+    etree.cleanup_namespaces(elt, keep_ns_prefixes=sorted(keep))
+
+
 def refuse_entity_declarations(root, parser_kwargs):
     """When entities are not resolved (the default), a request has no use for
     entity declarations. libxml2 still substitutes them in attribute values and
@@ -685,7 +698,7 @@ class XmlDocument(SubXmlBase):
                                   result_inst, self.app.interface.get_tns())
 
         if self.cleanup_namespaces and ctx.out_document is not None:
-            etree.cleanup_namespaces(ctx.out_document)
+            cleanup_namespaces(ctx.out_document)
 
         self.event_manager.fire_event('after_serialize', ctx)
 
